@@ -1,8 +1,8 @@
 CONSTANTS
-  Rotations = {0}
+  Rotations = {0, 22}
   Widths = {1}
   TransportSets = {{"grpc"}, {"rest"}, {"grpc", "rest"}}
-  Namings = {"plain"}
+  Namings = {"svchost"}
   NSvcs = {2}
   ReqPkgs = {"own"}
   Flattens = {FALSE}
